@@ -651,15 +651,24 @@ func captureStdout(f func() error) (string, error) {
 	return out, ferr
 }
 
+// canMarker: the fixed marker path is writable for this process (it is when the check runs as root); otherwise
+// the marker is left as found and requested-address ADDs are generated only when it already exists.
+var canMarker = true
+
 func setMarker(present bool) {
+	if !canMarker {
+		return
+	}
 	p := ipamplugin.VerifIPAMUpgradedFilePath
 	if present {
 		if err := os.MkdirAll(filepath.Dir(p), 0o755); err != nil {
-			panic(err)
+			canMarker = false
+			return
 		}
 		f, err := os.Create(p)
 		if err != nil {
-			panic(err)
+			canMarker = false
+			return
 		}
 		_ = f.Close()
 	} else {
@@ -773,6 +782,10 @@ func runCase(r *rng, idx int, tmp string, enc *json.Encoder, scripted int) {
 	init := dumpAlloc(w.store)
 	marker := r.chance(70)
 	setMarker(marker)
+	if !canMarker {
+		marker = markerPresent()
+		w.tags["marker-path-not-writable"] = true
+	}
 
 	nops := 3 + r.intn(6)
 	var steps, sample, keyParts []string
@@ -788,7 +801,7 @@ func runCase(r *rng, idx int, tmp string, enc *json.Encoder, scripted int) {
 		}
 		var q request
 		if isAdd {
-			if r.chance(20) {
+			if r.chance(20) && (canMarker || marker) {
 				var a addr
 				switch {
 				case p4 != nil && r.chance(60):
